@@ -120,9 +120,21 @@ def marshalY_UnitBytes : Val → Out
 /-- `MarshalJSON` writes `"%d"` in quotes: the reader sees the same string -/
 def marshalJ_UnitBytes : Val → Out := marshalY_UnitBytes
 
+def two63 : Nat := 9223372036854775808
+
+/-- `strconv.ParseInt(s, 10, 64)`: optional sign, digits, int64 range -/
+def parseInt64? (cs : List Char) : Option Int :=
+  match parseInt? cs with
+  | some i => if -(two63 : Int) ≤ i ∧ i < (two63 : Int) then some i else none
+  | none => none
+
+/-- `UnitBytes.DecodeMapstructure`: an int as it is; a string that is a plain int64 exactly (since the repair of the
+    negative / above-2^53 round trip), any other string through `units.RAMInBytes` -/
 def decode_UnitBytes : Val → Out
   | .int i => .ok (.int i)
-  | .str s => ramInBytes s
+  | .str s => match parseInt64? s.toList with
+    | some i => .ok (.int i)
+    | none => ramInBytes s
   | _ => .ok (.int 0)      -- any other kind leaves the zero value, without error
 
 /-! ## DeviceCount — `types/device.go` (no custom marshaller: rendered as the integer) -/
@@ -261,10 +273,13 @@ def marshalY_Ulimits : Val → Out
     else .ok (.map [("soft", .int (getInt u "Soft")), ("hard", .int (getInt u "Hard"))])
   | _ => .unmodelled "not a UlimitsConfig"
 
+/-- `(*UlimitsConfig).MarshalJSON`: the single value, or `{soft, hard}` with both limits always written -/
+def marshalJ_Ulimits : Val → Out := marshalY_Ulimits
+
+/-- the pre-repair `MarshalJSON` (the struct itself, whose tags all say `omitempty`) — kept for `Neg/C09.lean` -/
 def optInt (k : String) (i : Int) : List (String × Val) := if i = 0 then [] else [(k, .int i)]
 
-/-- `(*UlimitsConfig).MarshalJSON`: the single value, or the struct itself — whose tags all say `omitempty` -/
-def marshalJ_Ulimits : Val → Out
+def marshalJ_Ulimits_old : Val → Out
   | .map u =>
     if getInt u "Single" ≠ 0 then .ok (.int (getInt u "Single"))
     else .ok (.map (optInt "soft" (getInt u "Soft") ++ optInt "hard" (getInt u "Hard")))
@@ -310,17 +325,30 @@ def getBool (kvs : List (String × Val)) (k : String) : Bool :=
 def mkEnvFile (path : String) (required : Bool) (format : String) : Val :=
   .map [("Path", .str path), ("Required", .bool required), ("Format", .str format)]
 
-/-- `EnvFile.MarshalYAML`: the path when required, else `{path, required}` — `Format` is never written -/
+def optStr (k : String) (s : String) : List (String × Val) := if s = "" then [] else [(k, .str s)]
+
+/-- `EnvFile.MarshalYAML`: the bare path when required and without format, else `{path, required[, format]}` -/
 def marshalY_EnvFile : Val → Out
+  | .map e =>
+    if getBool e "Required" && getStr e "Format" == "" then .ok (.str (getStr e "Path"))
+    else .ok (.map ([("path", .str (getStr e "Path")), ("required", .bool (getBool e "Required"))] ++ optStr "format" (getStr e "Format")))
+  | _ => .unmodelled "not an EnvFile"
+
+/-- `(*EnvFile).MarshalJSON`: the bare path when required and without format, else the struct by its tags -/
+def marshalJ_EnvFile : Val → Out
+  | .map e =>
+    if getBool e "Required" && getStr e "Format" == "" then .ok (.str (getStr e "Path"))
+    else .ok (.map (optStr "path" (getStr e "Path") ++ [("required", .bool (getBool e "Required"))] ++ optStr "format" (getStr e "Format")))
+  | _ => .unmodelled "not an EnvFile"
+
+/-- the pre-repair marshallers (`format` never written in YAML, nor in JSON for a required file) — kept for `Neg/C09.lean` -/
+def marshalY_EnvFile_old : Val → Out
   | .map e =>
     if getBool e "Required" then .ok (.str (getStr e "Path"))
     else .ok (.map [("path", .str (getStr e "Path")), ("required", .bool false)])
   | _ => .unmodelled "not an EnvFile"
 
-def optStr (k : String) (s : String) : List (String × Val) := if s = "" then [] else [(k, .str s)]
-
-/-- `(*EnvFile).MarshalJSON`: the path when required, else the struct by its tags -/
-def marshalJ_EnvFile : Val → Out
+def marshalJ_EnvFile_old : Val → Out
   | .map e =>
     if getBool e "Required" then .ok (.str (getStr e "Path"))
     else .ok (.map (optStr "path" (getStr e "Path") ++ [("required", .bool false)] ++ optStr "format" (getStr e "Format")))
@@ -341,15 +369,25 @@ def decode_EnvFile : Val → Out
 
 def mkSSHKey (id path : String) : Val := .map [("ID", .str id), ("Path", .str path)]
 
-/-- `SSHKey.MarshalYAML`: the id, or the text `id: path` (a YAML *string*, not a mapping) -/
+/-- `SSHKey.shortSyntax`: `default` for the default agent, else `id=path` (`id=` for another agent key) -/
+def sshShort (id path : String) : String :=
+  if path = "" ∧ id = "default" then id else id ++ "=" ++ path
+
+/-- `SSHKey.MarshalYAML` / `MarshalJSON`: the short syntax as a string (JSON: properly quoted) -/
 def marshalY_SSHKey : Val → Out
+  | .map k => .ok (.str (sshShort (getStr k "ID") (getStr k "Path")))
+  | _ => .unmodelled "not an SSHKey"
+
+def marshalJ_SSHKey : Val → Out := marshalY_SSHKey
+
+/-- the pre-repair marshallers (`id: path` as a YAML string; bytes that are not JSON) — kept for `Neg/C09.lean` -/
+def marshalY_SSHKey_old : Val → Out
   | .map k =>
     if getStr k "Path" = "" then .ok (.str (getStr k "ID"))
     else .ok (.str (getStr k "ID" ++ ": " ++ getStr k "Path"))
   | _ => .unmodelled "not an SSHKey"
 
-/-- `SSHKey.MarshalJSON`: `"id"`, or the bytes `"id": path` which are not a JSON value -/
-def marshalJ_SSHKey : Val → Out
+def marshalJ_SSHKey_old : Val → Out
   | .map k =>
     if getStr k "Path" = "" then .ok (.str (getStr k "ID"))
     else .err "invalid-json"
@@ -374,6 +412,13 @@ def marshalY_SSHConfig : Val → Out
 def marshalJ_SSHConfig : Val → Out
   | .null => .ok .null
   | .seq ks => match mapOut marshalJ_SSHKey ks with
+    | .ok vs => .ok (.seq vs)
+    | .error e => e
+  | _ => .unmodelled "not an SSHConfig"
+
+def marshal_SSHConfig_with (f : Val → Out) : Val → Out
+  | .null => .ok .null
+  | .seq ks => match mapOut f ks with
     | .ok vs => .ok (.seq vs)
     | .error e => e
   | _ => .unmodelled "not an SSHConfig"
@@ -446,8 +491,6 @@ def durUnit : List Char → Option Nat
   | ['m'] => some 60000000000
   | ['h'] => some 3600000000000
   | _ => none
-
-def two63 : Nat := 9223372036854775808
 
 inductive DurRes where
   | ok (n : Nat)
@@ -533,7 +576,21 @@ def hostLines : List (String × Val) → List String
   | (h, .seq ips) :: r => (strsOf ips).map (joinHost h) ++ hostLines r
   | _ :: r => hostLines r
 
+/-- insertion sort of the entries by `host=` (the hosts of a map are distinct, so stability plays no role) -/
+def insertEntry (e : String × Val) : List (String × Val) → List (String × Val)
+  | [] => [e]
+  | x :: r => if e.1 ++ "=" ≤ x.1 ++ "=" then e :: x :: r else x :: insertEntry e r
+
+def sortEntries (l : List (String × Val)) : List (String × Val) := l.foldr insertEntry []
+
+/-- `HostsList.MarshalYAML/JSON` (`sortedList`): host by host in the order of `host=`, each host's addresses in their order -/
 def marshal_HostsList : Val → Out
+  | .null => .ok .null
+  | .map kvs => .ok (.seq ((hostLines (sortEntries kvs)).map .str))
+  | _ => .unmodelled "not a HostsList"
+
+/-- the pre-repair marshaller sorted whole `host=ip` lines — kept for `Neg/C09.lean` -/
+def marshal_HostsList_old : Val → Out
   | .null => .ok .null
   | .map kvs => .ok (.seq ((sortStrings (hostLines kvs)).map .str))
   | _ => .unmodelled "not a HostsList"
